@@ -6,7 +6,7 @@ import random
 import yaml
 
 from .. import core, yamlapi, sigs
-from ..gen import gdoc, values as V, options as O, boundary, strings as S, events as EV
+from ..gen import gdoc, values as V, options as O, boundary, strings as S, events as EV, shapes as SH
 from ..mon import streams
 from ..ref import bisim
 
@@ -48,6 +48,8 @@ def plan(tier, seed):
         specs.append({'kind': 'dumppos', 'shard': i, 'of': 2, 'n': 1, 'cext': 'plain'})
     for i in range(2 if q else 4):
         specs.append({'kind': 'emit_ev', 'shard': i, 'n': 1500 if q else 25000, 'cext': 'plain'})
+    for i in range(2 if q else 4):
+        specs.append({'kind': 'dump_obj', 'shard': i, 'n': 700 if q else 12000, 'cext': 'plain'})
     if not q:
         for i in range(2):
             specs.append({'kind': 'gdoc', 'shard': 100 + i, 'n': 6000, 'cext': 'asan'})
@@ -177,6 +179,34 @@ def compare(text, ctx, case, expected=None, want_ok=False):
             b['stream_schedule'] = text.schedule
         ctx.violation(case, b, mech)
     return not bad
+
+
+def compare_objects(text, ctx, case):
+    """Events and nodes as usual; objects by graph comparison (signatures of arbitrary instances would carry addresses)."""
+    pe, ce = events_of(text, 'Loader'), events_of(text, 'CLoader')
+    ctx.stat('event_comparisons')
+    if pe != ce:
+        ctx.violation(case, {'what': 'events differ between back-ends', 'diff': first_diff(pe, ce), 'text': text[:1500]}, None)
+        return
+    for pl, cl in PAIRS:
+        res = []
+        for ln in (pl, cl):
+            try:
+                res.append(('ok', yaml.load(text, Loader=getattr(yaml, ln))))
+            except yaml.YAMLError as e:
+                res.append(('err', type(e).__name__))
+            except RecursionError:
+                res.append(('err', 'RecursionError'))
+            except Exception as e:
+                res.append(('err', 'nonyaml:' + type(e).__name__))
+        ctx.stat('object_comparisons')
+        ctx.stat('load_outcome:%s:%s' % (pl, res[0][0] if res[0][0] != 'err' else res[0][1]))
+        if res[0][0] != res[1][0] or (res[0][0] == 'err' and res[0][1] != res[1][1]):
+            ctx.violation(case, {'what': 'constructed objects differ between back-ends', 'pair': [pl, cl], 'py': repr(res[0])[:200], 'c': repr(res[1])[:200], 'text': text[:1500]}, None)
+        elif res[0][0] == 'ok':
+            m = bisim.diff(res[0][1], res[1][1], track_tuples=True)
+            if m:
+                ctx.violation(case, {'what': 'constructed objects differ between back-ends', 'pair': [pl, cl], 'diff': m[:300], 'text': text[:1500]}, None)
 
 
 def first_diff(a, b):
@@ -345,6 +375,21 @@ def run(spec, ctx):
             if i < 2:
                 ctx.sample({'kind': 'emit', 'text': text})
             compare(text, ctx, case, want_ok=True)
+        elif k == 'dump_obj':
+            # what the full dumpers write for Python objects (python/* tags of every form): the Base, Safe, Full and Unsafe
+            # pairs must each treat it alike - build the same objects or refuse with the same error class
+            gs, classes = SH.gen_spec(r, cycles=True)
+            opts = O.gen(r, axes=('default_flow_style', 'canonical', 'indent', 'width', 'allow_unicode', 'default_style'))
+            dname = r.choice(['Dumper', 'CDumper'])
+            case = {'kind': 'dump_obj', 'spec': gs, 'opts': O.jsonable(opts), 'D': dname}
+            ctx.crumb(case)
+            try:
+                text = yaml.dump(SH.build(gs), Dumper=getattr(yaml, dname), **opts)
+            except (yaml.YAMLError, RecursionError):
+                ctx.stat('dump_obj_rejected')
+                continue
+            ctx.case(core.h64(text), True, ['dump_obj:' + dname] + sorted(classes)[:6])
+            compare_objects(text, ctx, case)
         elif k == 'emit_ev':
             # what the emitters write for arbitrary well-formed event streams (C05's generator: every tag spelling incl.
             # non-ASCII tags and prefixes, anchors, styles, per-document directives) must be read alike by both back-ends
@@ -420,7 +465,9 @@ def pos_cases(shard, of):
 def replay(case, ctx):
     ctx.case(core.h64(repr(case)), True)
     k = case.get('kind')
-    if k == 'emit_ev':
+    if k == 'dump_obj':
+        compare_objects(yaml.dump(SH.build(case['spec']), Dumper=getattr(yaml, case['D']), **O.unjson(case['opts'])), ctx, case)
+    elif k == 'emit_ev':
         compare(yaml.emit(EV.build(case['spec']), Dumper=getattr(yaml, case['D']), **case['opts']), ctx, case)
     elif k == 'dumppos':
         text = yaml.dump(pos_value(case['ch'], case['shape']), Dumper=getattr(yaml, case['D']), **case['opts'])
